@@ -23,13 +23,13 @@ type c07Wallet struct {
 }
 
 type c07 struct {
-	rt      *rapid.T
-	s       *session
-	w       map[string]*c07Wallet // by address
-	hist    []string
-	classes map[string]bool
-	kinds   []string
-	nWithdrawOn map[string]int
+	rt             *rapid.T
+	s              *session
+	w              map[string]*c07Wallet // by address
+	hist           []string
+	classes        map[string]bool
+	kinds          []string
+	nWithdrawOn    map[string]int
 	accruedBetween map[string]bool
 }
 
